@@ -356,7 +356,18 @@ func genC04(g *prng.R) c04Case {
 				base := note(id, nil)
 				want := note(id, nil)
 				colID := id + "/" + member
-				switch g.Intn(5) {
+				kindOfCol := g.Intn(5)
+				if i == 0 && g.Chance(1, 10) {
+					kindOfCol = 5
+				}
+				switch kindOfCol {
+				case 5: // present as a reference to a collection stored on its own
+					base[member] = colID
+					want[member] = colID
+					sc.Store[colID] = M{"@context": AS, "type": "OrderedCollection", "id": colID, "orderedItems": A{R2 + "/act/old1", R2 + "/act/old2"}}
+					cs.WantStore[colID] = M{"type": "OrderedCollection", "id": colID, "orderedItems": A{actID, R2 + "/act/old1", R2 + "/act/old2"}}
+					cs.Info["collection_by_reference"] = true
+					n = 1 // the one object of this activity
 				case 3: // present, unordered, no entry yet
 					base[member] = M{"type": "Collection", "id": colID}
 					want[member] = M{"type": "Collection", "id": colID, "items": actID}
@@ -655,7 +666,11 @@ func init() {
 				var wn interface{}
 				mustRoundTrip(want, &wn)
 				if !present || !looseEqual(wn, got, false) {
-					viol("store-delta", "pub.FederatingWrappedCallbacks."+strings.ToLower(cs.Typ), cs.Typ+" value", fmt.Sprintf("stored %s = %s\nwant %s", id, jstr(got), jstr(wn)))
+					feat := cs.Typ + " value"
+					if cs.Info["collection_by_reference"] == true {
+						feat += " (the object names its likes / shares collection by IRI)"
+					}
+					viol("store-delta", "pub.FederatingWrappedCallbacks."+strings.ToLower(cs.Typ), feat, fmt.Sprintf("stored %s = %s\nwant %s", id, jstr(got), jstr(wn)))
 				}
 			}
 			for col, news := range cs.Front {
